@@ -1,8 +1,9 @@
 #!/bin/bash
+V=${VERIF:-/verif}
 # tools/rf_all.sh : silence test - every kept behaviour-preserving refactoring applied to an exported copy of /repo HEAD; all 20 quick checks must exit 0
-for r in /verif/refactorings/*/; do
+for r in $V/refactorings/*/; do
   n=$(basename $r); d=$(mktemp -d /tmp/rfall.XXXXXX)
   git -C /repo archive HEAD | tar -x -C $d
   if ! (cd $d && git apply --whitespace=nowarn $r/patch.diff 2>/dev/null); then echo "== $n: patch does not apply to HEAD any more"; rm -rf $d; continue; fi
-  echo "== $n"; /verif/tools/rf_run.sh $d; rm -rf $d
+  echo "== $n"; $V/tools/rf_run.sh $d; rm -rf $d
 done
